@@ -480,8 +480,9 @@ class SNum:
             o = lift(o)
         except (Undecided, TypeError):
             return NotImplemented
-        if isinstance(o, SCplx):
-            return NotImplemented
+        if isinstance(o, SCplx):        # real (op) complex constant
+            a, b = (o, SCplx(self, 0)) if rev else (SCplx(self, 0), o)
+            return {"add": lambda: a + b, "sub": lambda: a - b, "mul": lambda: a * b, "div": lambda: a / b}[op]()
         a, b = (o, self) if rev else (self, o)
         if a.kind == "int" and b.kind == "int" and op != "div":
             ta, tb = a.t, b.t
@@ -698,6 +699,8 @@ class SCplx:
         o = SCplx.of(o); return SCplx(o.re - self.re, o.im - self.im)
 
     def __mul__(self, o):
+        if getattr(o, "__array_priority__", 0) >= 3000:      # phases / scaled values take over
+            return NotImplemented
         if not isinstance(o, (SCplx, complex)) :
             try:
                 import numpy as _np
@@ -728,6 +731,10 @@ class SCplx:
 
     def conj(self): return SCplx(self.re, -self.im)
     conjugate = conj
+
+    def exp(self):
+        from .phase import exp_scalar
+        return exp_scalar(self)
 
     @property
     def real(self): return self.re
